@@ -153,8 +153,8 @@ class TlcResult:
         return res
 
 
-def run_tlc(ctx, module, cfg=None, workers=8, timeout=1200, env=None, simulate=None, depth=None, extra=(), heap="8g",
-            dfs=False, name=None, coverage=False):
+def run_tlc_raw(ctx, module, cfg=None, workers=8, timeout=1200, env=None, simulate=None, depth=None, extra=(), heap="8g",
+                dfs=False, name=None, coverage=False):
     """Runs TLC on SPEC/<module>.tla with SPEC/<cfg>.cfg."""
     cfg = cfg or module
     name = name or os.path.basename(cfg).replace(".cfg", "")
@@ -187,10 +187,40 @@ def run_tlc(ctx, module, cfg=None, workers=8, timeout=1200, env=None, simulate=N
     res.wall = time.time() - t
     log("tlc %s: %d generated / %d distinct, depth %d, %.1fs%s" % (
         name, res.generated, res.distinct, res.depth, res.wall, "" if res.ok else "  [NOT OK]"))
-    if res.error:
-        sys.stderr.write(r.stdout[-5000:])
-        raise ToolError("TLC error on %s: %s" % (cfg, res.error))
     return res
+
+
+def run_tlc(ctx, module, cfg=None, **kw):
+    res = run_tlc_raw(ctx, module, cfg, **kw)
+    if res.error:
+        sys.stderr.write(res.out[-5000:])
+        raise ToolError("TLC error on %s: %s" % (cfg or module, res.error))
+    return res
+
+
+def printed_json(res, tag):
+    """Values printed with PrintT(<<tag, ToJson(x)>>), decoded."""
+    out = []
+    for x in res.printed(tag):
+        v = json.loads(x)
+        out.append(json.loads(v) if isinstance(v, str) else v)
+    return out
+
+
+def validate_trace(ctx, module, trace_path, name=None, timeout=900, heap="4g"):
+    """TLC trace validation (impl -> spec). Returns (accepted, first_unmatched_line, n_lines, TlcResult)."""
+    n = sum(1 for _ in open(trace_path))
+    res = run_tlc_raw(ctx, module, module, workers=1, timeout=timeout, env={"TRACE": trace_path}, dfs=True,
+                      name=name or module, heap=heap)
+    if "TRACE-REJECTED" in res.out or "Postcondition" in res.out:
+        m = re.search(r'"TRACE-REJECTED at line",\s*(\d+)', res.out)
+        line = int(m.group(1)) if m else -1
+        log("trace %s rejected at line %d of %d" % (os.path.basename(trace_path), line, n))
+        return False, line, n, res
+    if not res.ok:
+        sys.stderr.write(res.out[-4000:])
+        raise ToolError("trace validation of %s failed to run: %s" % (trace_path, res.error))
+    return True, None, n, res
 
 
 def tlc_counterexample(res):
